@@ -7,7 +7,7 @@ from .build import Snapshot, BuildError, VERIF
 from .explore import Stats
 from .values import *
 
-EVIDENCE_DIR = os.path.join(VERIF, 'evidence')
+EVIDENCE_DIR = os.environ.get('VERIF_EVIDENCE_DIR') or os.path.join(VERIF, 'evidence')   # (development runs may divert it; registered commands never set it)
 OUT_DIR = os.path.join(VERIF, 'out')
 KNOWN_FILE = os.path.join(VERIF, 'known-findings.json')
 
@@ -170,6 +170,9 @@ class CheckRun:
             replay_paths.append(p)
             print(f'VIOLATION property={self.prop} replay={p}')
             print(f'  {f.kind} at {f.site}: {f.what}\n  witness: {json.dumps(f.witness, default=str)[:600]}')
+        for i, f in enumerate(nonrepro[:5]):
+            try: json.dump(f.to_dict(), open(os.path.join(OUT_DIR, 'replays', f'{self.prop}-nonrepro-{i}.json'), 'w'), indent=1, default=str)
+            except Exception: pass
         for f in nonrepro:
             print(f'NON-REPRODUCING property={self.prop} {f.kind} at {f.site}: {f.what} witness={json.dumps(f.witness, default=str)[:300]} native={f.native}')
         st = self.stats
